@@ -487,6 +487,9 @@ main(void)
 			printf("bad-op");
 		}
 		HC_END();
+		/* a sanitizer abort loses buffered output: make sure the header of the running case is out */
+		if (strcmp(hc_tok[0], "case") == 0)
+			fflush(stdout);
 	}
 	free_all();
 	(void)pool_exit();
